@@ -34,18 +34,18 @@ type traceStep struct {
 }
 
 type ceremonyTrace struct {
-	Kind     string
-	N, T     int
-	Round    string
-	Names    []string
-	Keys     []*keystore.KeyPair
-	Steps    []traceStep
-	Board    []storage.Message
+	Kind      string
+	N, T      int
+	Round     string
+	Names     []string
+	Keys      []*keystore.KeyPair
+	Steps     []traceStep
+	Board     []storage.Message
 	Mnemonic0 string
-	RoundA   string     // first round of a "tworounds" trace
-	Ops      []opRecord // node 0's operations with their genuine results
-	FinalDir string     // node 0's state directory at the end
-	Elapsed  time.Duration
+	RoundA    string     // first round of a "tworounds" trace
+	Ops       []opRecord // node 0's operations with their genuine results
+	FinalDir  string     // node 0's state directory at the end
+	Elapsed   time.Duration
 }
 
 // opRecord is one operation of node 0: the state directory while it was pending, the operation file the
